@@ -250,6 +250,30 @@ package server
 // Layer.Remove (scan first).
 //@ func removeLayer$1
 
+// The scan in Layer.Remove only sees manifests on disk, not the layer list of the model being
+// created. So inside one setter the overridden layers are dropped BEFORE the replacement is
+// stored: a removal after NewLayer could delete the very blob the new layer points to (same
+// content = same digest, NewLayer then reports "using existing layer"), and the manifest
+// written afterwards would reference a missing blob (added after seeded change C04-seed1).
+//@ extern func removeLayer
+//@ func setTemplate
+//@   ghost-at entry : ghost_made := 0
+//@   ghost-at after call NewLayer #1 : ghost_made := 1
+//@   assert-at call removeLayer : ghost_made == 0
+//@ func setSystem
+//@   ghost-at entry : ghost_made := 0
+//@   ghost-at after call NewLayer #1 : ghost_made := 1
+//@   assert-at call removeLayer : ghost_made == 0
+//@ func setParameters
+//@   assume-at call GetBlobsPath : ErrInvalidDigestFormat != nil   -- package-level errors.New value, assigned once at package init
+//@   ghost-at entry : ghost_made := 0
+//@   ghost-at after call NewLayer #1 : ghost_made := 1
+//@   assert-at call removeLayer : ghost_made == 0
+//@ func setMessages
+//@   ghost-at entry : ghost_made := 0
+//@   ghost-at after call NewLayer #1 : ghost_made := 1
+//@   assert-at call removeLayer : ghost_made == 0
+
 // CopyModel touches no blob and writes one manifest: the source is opened before the destination
 // is created (truncated), and a copy onto itself (same manifest path) returns before any effect,
 // so it never truncates its own source.
